@@ -147,6 +147,20 @@ UpdateFn(ops, fail) ==
   /\ res' = [kind |-> IF fail THEN "cberr" ELSE "ok"]
   /\ UNCHANGED <<batch, snap, it>>
 
+(* Durability events have no abstract effect: flushing the write buffer to disk (Pebble memtable
+   flush / compaction) at any time, and closing and reopening the database (a restart; only with no
+   batch, snapshot or iterator open).  They are actions so that the replayer exercises them: a
+   backend whose content changes across a flush or a restart breaks the contract. *)
+Flush ==
+  /\ Tick
+  /\ act' = [name |-> "Flush"] /\ res' = [kind |-> "ok"]
+  /\ UNCHANGED <<store, batch, snap, it>>
+
+Reopen ==
+  /\ Tick /\ ~batch.open /\ ~snap.open /\ ~it.open
+  /\ act' = [name |-> "Reopen"] /\ res' = [kind |-> "ok"]
+  /\ UNCHANGED <<store, batch, snap, it>>
+
 --------------------------------------------------------------------------
 (* batches *)
 NewBatch(indexed) ==
@@ -272,6 +286,7 @@ Next ==
   \/ NewSnapshot \/ SnapClose
   \/ \E src \in {"store", "batch", "snap"}, p \in Prefixes, ub \in BOOLEAN : NewIter(src, p, ub)
   \/ IterFirst \/ IterNext \/ IterPrev \/ IterClose
+  \/ Flush \/ Reopen
 
 Spec == Init /\ [][Next]_vars
 
@@ -283,6 +298,9 @@ TypeOK ==
   /\ batch.open \in BOOLEAN /\ Len(batch.ops) <= MaxBatchOps
   /\ snap.data \in [K -> Vals \cup {Absent}]
   /\ it.pos \in 0..(NK + 1)
+
+(* Durability: a flush or a restart never changes the content *)
+DurabilityEventsAreNoOps == [][act'.name \in {"Flush", "Reopen"} => store' = store]_vars
 
 (* Snapshot isolation: no call other than creating/closing the snapshot changes what it reads *)
 SnapshotIsolation == [][snap.open /\ snap'.open => snap'.data = snap.data]_vars
